@@ -149,15 +149,16 @@ def attach_clone(prop="C13"):
         if "clone" in cls.__dict__ and not getattr(cls.__dict__["clone"], "__vmon_original__", None):
             contracts.attach(cls, "clone", around=around)
 
-    def around_cfr(orig, self, node=None):
+    def around_cfr(orig, self, *args, **kwargs):
+        node = args[0] if args else kwargs.get("node")
         if node is not None and node is not self:
-            return orig(self, node)
+            return orig(self, *args, **kwargs)
         root = S.root_of(self)
         path = S.path_from_root(self)
         _DEPTH[0] += 1  # the inner clone() calls are part of this operation
         err = None
         try:
-            res = orig(self, node)
+            res = orig(self, *args, **kwargs)
         except Exception as e:
             err = e
         finally:
